@@ -253,6 +253,38 @@ func execOp(line string) {
 			return "wrote:" + strings.TrimPrefix(hx(all), "-")
 		}))
 
+	case "tlogws":
+		// tlogws <dialect> <epochMicro@frame;epochMicro@frame;...>: several entries through ONE writer; the answer is the
+		// status of every Write and the whole file
+		emit(line, safely(func() string {
+			proto := t[1]
+			if i := strings.IndexByte(t[1], '@'); i >= 0 {
+				proto = t[1][i+1:]
+				t[1] = t[1][:i]
+			}
+			w := &recWriter{failAt: -1}
+			tw := &tlog.Writer{ByteWriter: w, DialectRW: getDialectRW(t[1])}
+			if err := tw.Initialize(); err != nil {
+				return "init-err"
+			}
+			var st []string
+			for _, it := range strings.Split(t[2], ";") {
+				p := strings.SplitN(it, "@", 2)
+				ep, _ := strconv.ParseInt(p[0], 10, 64)
+				fr := decFrame(p[1], getDialect(proto))
+				if err := tw.Write(&tlog.Entry{Time: time.UnixMicro(ep), Frame: fr}); err != nil {
+					st = append(st, "f:"+werrKind(err))
+				} else {
+					st = append(st, "w")
+				}
+			}
+			var all []byte
+			for _, c := range w.calls {
+				all = append(all, c...)
+			}
+			return strings.Join(st, ",") + "|" + hx(all)
+		}))
+
 	case "tlogr":
 		emit(line, safely(func() string { return implTlogRead(t) }))
 
